@@ -79,12 +79,13 @@ def regen(harness_bin):
     rc, out, err, dt = run([sys.executable, os.path.join(ROOT, "tools", "gen_consts.py")], env=env, timeout=120)
     ok = rc == 0
     msgs = (out + err).strip()
-    for extra in ("rs2v.py",):
-        p = os.path.join(ROOT, "tools", extra)
-        if os.path.exists(p):
-            rc2, o2, e2, _ = run([sys.executable, p], env=env, timeout=120)
-            ok = ok and rc2 == 0
-            msgs += "\n" + (o2 + e2).strip()
+    # further translators: every tools/gen_*.py (each writes its own coq/Gen/<X>.v and fails loudly)
+    for extra in sorted(os.listdir(os.path.join(ROOT, "tools"))):
+        if not (extra.startswith("gen_") and extra.endswith(".py")) or extra == "gen_consts.py":
+            continue
+        rc2, o2, e2, _ = run([sys.executable, os.path.join(ROOT, "tools", extra)], env=env, timeout=120)
+        ok = ok and rc2 == 0
+        msgs += "\n" + (o2 + e2).strip()
     with build_lock():
         run([sys.executable, os.path.join(ROOT, "tools", "mkcoqproject.py")], timeout=120)
     return ok, msgs.strip()
@@ -249,6 +250,41 @@ def compare(trace, exp):
                              exp=(e[step] if step < len(e) else None)))
     viol = [dict(id=cid, input=I.get(cid, ""), what=w) for cid, ws in V.items() for w in ws]
     return dict(n=len(order), mismatches=mism, violations=viol, inputs=I, obs=O, tags=M, trace=trace)
+
+
+def run_corpus(prop, engine, harness_bin, tag):
+    """Replays corpus/<prop>/*.txt (minimised histories that once failed or once distinguished
+    model and code) before anything is generated."""
+    cdir = os.path.join(ROOT, "corpus", prop)
+    out = []
+    if not os.path.isdir(cdir):
+        return out
+    for f in sorted(os.listdir(cdir)):
+        path = os.path.join(cdir, f)
+        head = open(path).read(300)
+        m = re.search(r"#\s*engine:\s*(\w+)", head)
+        if m and m.group(1) != engine:
+            continue
+        os.makedirs(WORK, exist_ok=True)
+        tr = os.path.join(WORK, f"{tag}.corpus.{f}.trace")
+        ex = os.path.join(WORK, f"{tag}.corpus.{f}.exp")
+        with open(tr, "w") as fo:
+            p = subprocess.run([harness_bin, engine, "--replay", path], stdout=fo, stderr=subprocess.PIPE, text=True, env=ENV, timeout=1800)
+        if p.returncode != 0:
+            out.append(dict(error=f"harness exit {p.returncode} on corpus {f}: {p.stderr[-1000:]}", trace=tr))
+            continue
+        drv = os.path.join(OCAML, "driver")
+        if os.path.exists(drv):
+            with open(tr) as fin, open(ex, "w") as fo:
+                subprocess.run([drv, engine], stdin=fin, stdout=fo, stderr=subprocess.PIPE, text=True, timeout=1800)
+        else:
+            open(ex, "w").close()
+        r = compare(tr, ex)
+        if not os.path.exists(drv):
+            r["mismatches"] = []
+        r["corpus"] = f
+        out.append(r)
+    return out
 
 
 def run_engine(engine, harness_bin, seed, cases, shards=1, extra=None, tag=None):
